@@ -48,7 +48,7 @@ func init() {
 	register("concatcode", c14ExtractConcatCode)
 	registerFallback("concatcode", "ConcatCode.v", "(* Gen/ConcatCode.v — translator tie UNAVAILABLE: tools/go2v (extractor \"concatcode\") did not recognise the\n"+
 		"   shape of internal/concat.go / schema/message.go (concatToolCalls); the reference translation is re-exported. *)\n"+
-		"From Eino Require Import Base.Util Model.ConcatTable Model.Concat Model.ConcatGenLib Model.ConcatCodeRef.\n\n"+
+		"From Eino Require Import Base.Util Model.ConcatTable Model.Concat Model.ConcatMsg Model.ConcatStream Model.ConcatGenLib Model.ConcatCodeRef.\n\n"+
 		"Definition tie_available : bool := false.\n\n"+
 		"Section Gen.\nContext {U : UserFn}.\n"+
 		"Definition gen_toSliceValue := Model.ConcatCodeRef.gen_toSliceValue.\n"+
@@ -57,7 +57,11 @@ func init() {
 		"Definition gen_concatInterfaces := Model.ConcatCodeRef.gen_concatInterfaces.\n"+
 		"End Gen.\n"+
 		"Definition gen_tc_less := Model.ConcatCodeRef.gen_tc_less.\n"+
-		"Definition gen_tc_sort_stable : bool := Model.ConcatCodeRef.gen_tc_sort_stable.\n")
+		"Definition gen_tc_sort_stable : bool := Model.ConcatCodeRef.gen_tc_sort_stable.\n"+
+		"Definition gen_concat_items_shape := Model.ConcatCodeRef.gen_concat_items_shape.\n"+
+		"Definition gen_concatStreamReader := Model.ConcatCodeRef.gen_concatStreamReader.\n"+
+		"Definition gen_ConcatMessageStream := Model.ConcatCodeRef.gen_ConcatMessageStream.\n"+
+		"Definition gen_concatToolCalls := Model.ConcatCodeRef.gen_concatToolCalls.\n")
 }
 
 type c14Kind int
@@ -78,10 +82,22 @@ const (
 	c14kNat
 	c14kBool
 	c14kFunc
+	c14kStream // *schema.StreamReader[T]: what it still has to deliver     list (sitem X)
+	c14kXs     // []T                                                       list X
+	c14kX      // T                                                         X
+	c14kErr    // the error of a Recv: nil | io.EOF | another error         rerr
+	c14kTCs    // []ToolCall                                                list toolcall
+	c14kTC     // ToolCall                                                  toolcall
+	c14kOptZ   // *int                                                      option Z
+	c14kZ      // int used as a tool-call index                             Z
+	c14kZMap   // map[int][]int                                             list (Z * list nat)
+	c14kNats   // []int of positions                                        list nat
+	c14kStr    // string / strings.Builder                                  string
 )
 
 var c14KindName = map[c14Kind]string{c14kSlice: "slice", c14kAnys: "anys", c14kElem: "elem", c14kOpt: "opt", c14kOptAnys: "optanys", c14kMapAnys: "mapanys",
-	c14kKeys: "keys", c14kKey: "key", c14kTy: "ty", c14kOptTy: "optty", c14kKind: "kind", c14kNat: "nat", c14kBool: "bool", c14kFunc: "func"}
+	c14kKeys: "keys", c14kKey: "key", c14kTy: "ty", c14kOptTy: "optty", c14kKind: "kind", c14kNat: "nat", c14kBool: "bool", c14kFunc: "func", c14kStream: "stream", c14kXs: "xs", c14kX: "x", c14kErr: "err",
+	c14kTCs: "toolcalls", c14kTC: "toolcall", c14kOptZ: "optint", c14kZ: "index", c14kZMap: "indexmap", c14kNats: "positions", c14kStr: "string"}
 
 type c14Fn struct {
 	gname  string // Gallina term to call
@@ -103,12 +119,14 @@ type c14Tr struct {
 	funcs   map[string]c14Fn
 	loops   []c14Loop
 	loopV   [][]string // state tuple of the enclosing loops
+	loopK   []string   // kind of the enclosing loops: "fold" (cfold) | "loop" (for { }: c_loop, break = Next (inr _))
+	xType   string     // stream entry points: the printed chunk type T
 	tmp     int
 }
 
 var c14Reserved = map[string]bool{"at": true, "as": true, "in": true, "end": true, "fun": true, "let": true, "if": true, "then": true, "else": true,
 	"return": true, "match": true, "with": true, "fix": true, "forall": true, "exists": true, "Type": true, "Set": true, "Prop": true, "using": true,
-	"where": true, "for": true, "do": true, "cdo": true, "cbind": true, "cfold": true, "fst": true, "snd": true, "length": true, "negb": true, "tt": true}
+	"where": true, "for": true, "do": true, "S": true, "res": true, "Ok": true, "Err": true, "Some": true, "None": true, "Next": true, "Return": true, "zero": true, "X": true, "concat_items": true, "self": true, "cdo": true, "cbind": true, "cfold": true, "fst": true, "snd": true, "length": true, "negb": true, "tt": true}
 
 func c14Name(n string) string {
 	if c14Reserved[n] {
@@ -146,6 +164,21 @@ func c14Wrap(pre []c14Pre, body string) string {
 func c14IsIdent(e ast.Expr, name string) bool {
 	id, ok := e.(*ast.Ident)
 	return ok && id.Name == name
+}
+
+// field path of a tool call: chunk.ID -> "ID", chunk.Function.Name -> "Function.Name"
+func c14FieldPath(x *ast.SelectorExpr) string {
+	if in, ok := x.X.(*ast.SelectorExpr); ok && in.Sel.Name == "Function" {
+		return "Function." + x.Sel.Name
+	}
+	return x.Sel.Name
+}
+
+func c14FieldBase(x *ast.SelectorExpr) ast.Expr {
+	if in, ok := x.X.(*ast.SelectorExpr); ok && in.Sel.Name == "Function" {
+		return in.X
+	}
+	return x.X
 }
 
 // X.M(args) -> X, M, args
@@ -191,6 +224,9 @@ func (t *c14Tr) expr(e ast.Expr) ([]c14Pre, string, c14Kind, error) {
 		if x.Kind == token.INT {
 			return nil, x.Value, c14kNat, nil
 		}
+		if x.Kind == token.STRING && x.Value == `""` {
+			return nil, "EmptyString", c14kStr, nil
+		}
 	case *ast.Ident:
 		if k, ok := t.vars[x.Name]; ok {
 			return nil, c14Name(x.Name), k, nil
@@ -200,6 +236,20 @@ func (t *c14Tr) expr(e ast.Expr) ([]c14Pre, string, c14Kind, error) {
 			return nil, x.Name, c14kBool, nil
 		}
 	case *ast.SelectorExpr:
+		if f, ok := map[string]string{"Index": "tc_idx", "ID": "tc_id", "Type": "tc_type", "Function.Name": "tc_name", "Function.Arguments": "tc_args"}[c14FieldPath(x)]; ok {
+			base := c14FieldBase(x)
+			pre, c, k, err := t.expr(base)
+			if err != nil {
+				return nil, "", c14kNone, err
+			}
+			if k == c14kTC {
+				kd := c14kStr
+				if f == "tc_idx" {
+					kd = c14kOptZ
+				}
+				return pre, "(" + f + " " + c + ")", kd, nil
+			}
+		}
 		if c14IsIdent(x.X, "reflect") {
 			switch x.Sel.Name {
 			case "Map":
@@ -209,9 +259,32 @@ func (t *c14Tr) expr(e ast.Expr) ([]c14Pre, string, c14Kind, error) {
 			}
 		}
 	case *ast.CompositeLit:
+		if es(x.Type) == "ToolCall" && len(x.Elts) == 1 {
+			if kv, ok := x.Elts[0].(*ast.KeyValueExpr); ok && c14IsIdent(kv.Key, "Index") {
+				if u, ok := kv.Value.(*ast.UnaryExpr); ok && u.Op == token.AND {
+					pre, c, k, err := t.expr(u.X)
+					if err != nil {
+						return nil, "", c14kNone, err
+					}
+					if k == c14kZ {
+						return pre, "(tc_new (Some " + c + "))", c14kTC, nil
+					}
+				}
+			}
+			return bad()
+		}
 		if es(x.Type) == "reflect.Value" && len(x.Elts) == 0 {
 			return nil, "(@None cval)", c14kOpt, nil
 		}
+	case *ast.StarExpr:
+		pre, c, k, err := t.expr(x.X)
+		if err != nil {
+			return nil, "", c14kNone, err
+		}
+		if k != c14kOptZ {
+			return bad()
+		}
+		return mon(pre, "(r_deref "+c+")", "d", c14kZ)
 	case *ast.UnaryExpr:
 		if x.Op == token.NOT {
 			pre, c, k, err := t.expr(x.X)
@@ -228,6 +301,45 @@ func (t *c14Tr) expr(e ast.Expr) ([]c14Pre, string, c14Kind, error) {
 		pre, xc, xk, err := t.expr(x.X)
 		if err != nil {
 			return nil, "", c14kNone, err
+		}
+		if xk == c14kTCs || xk == c14kNats {
+			for _, l := range t.loops {
+				if c14IsIdent(x.X, l.over) && c14IsIdent(x.Index, l.idx) {
+					return pre, l.elem, c14kTC, nil
+				}
+			}
+			pi, ic, ik, err := t.expr(x.Index)
+			if err != nil {
+				return nil, "", c14kNone, err
+			}
+			if ik != c14kNat {
+				return bad()
+			}
+			ek := c14kTC
+			if xk == c14kNats {
+				ek = c14kNat
+			}
+			return mon(append(pre, pi...), "(g_nth "+xc+" "+ic+")", "x", ek)
+		}
+		if xk == c14kZMap {
+			pi, ic, ik, err := t.expr(x.Index)
+			if err != nil {
+				return nil, "", c14kNone, err
+			}
+			if ik != c14kZ {
+				return bad()
+			}
+			return append(pre, pi...), "(zm_get " + ic + " " + xc + ")", c14kNats, nil
+		}
+		if xk == c14kXs {
+			pi, ic, ik, err := t.expr(x.Index)
+			if err != nil {
+				return nil, "", c14kNone, err
+			}
+			if ik != c14kNat {
+				return bad()
+			}
+			return mon(append(pre, pi...), "(g_nth "+xc+" "+ic+")", "x", c14kX)
 		}
 		if xk != c14kAnys {
 			return bad()
@@ -276,6 +388,24 @@ func (t *c14Tr) expr(e ast.Expr) ([]c14Pre, string, c14Kind, error) {
 				op = "||"
 			}
 			return pl, "(" + l + " " + op + " " + r + ")", c14kBool, nil
+		case token.ADD, token.SUB:
+			// on lengths and positions; x - y below zero is 0 here and an index out of range either way
+			pl, l, lk, err := t.expr(x.X)
+			if err != nil {
+				return nil, "", c14kNone, err
+			}
+			pr, r, rk, err := t.expr(x.Y)
+			if err != nil {
+				return nil, "", c14kNone, err
+			}
+			if lk != c14kNat || rk != c14kNat {
+				return bad()
+			}
+			op := "+"
+			if x.Op == token.SUB {
+				op = "-"
+			}
+			return append(pl, pr...), "(" + l + " " + op + " " + r + ")", c14kNat, nil
 		case token.EQL, token.NEQ, token.LSS, token.GTR, token.LEQ, token.GEQ:
 			neg := func(s string) string {
 				if x.Op == token.NEQ {
@@ -297,6 +427,13 @@ func (t *c14Tr) expr(e ast.Expr) ([]c14Pre, string, c14Kind, error) {
 					return nil, "", c14kNone, err
 				}
 				switch k {
+				case c14kOptZ:
+					if x.Op == token.NEQ {
+						return pre, "(is_some " + c + ")", c14kBool, nil
+					}
+					return pre, "(negb (is_some " + c + "))", c14kBool, nil
+				case c14kErr:
+					return pre, neg("(rerr_is_nil " + c + ")"), c14kBool, nil
 				case c14kFunc, c14kOptTy:
 					if x.Op == token.NEQ {
 						return pre, "(is_some " + c + ")", c14kBool, nil
@@ -307,6 +444,20 @@ func (t *c14Tr) expr(e ast.Expr) ([]c14Pre, string, c14Kind, error) {
 				}
 				return bad()
 			}
+			if (x.Op == token.EQL || x.Op == token.NEQ) && (es(x.Y) == "io.EOF" || es(x.X) == "io.EOF") {
+				o := x.X
+				if es(x.X) == "io.EOF" {
+					o = x.Y
+				}
+				pre, c, k, err := t.expr(o)
+				if err != nil {
+					return nil, "", c14kNone, err
+				}
+				if k != c14kErr {
+					return bad()
+				}
+				return pre, neg("(rerr_is_eof " + c + ")"), c14kBool, nil
+			}
 			pl, l, lk, err := t.expr(x.X)
 			if err != nil {
 				return nil, "", c14kNone, err
@@ -316,7 +467,14 @@ func (t *c14Tr) expr(e ast.Expr) ([]c14Pre, string, c14Kind, error) {
 				return nil, "", c14kNone, err
 			}
 			pre := append(pl, pr...)
+			// an index compared with an integer literal
+			if lit, ok := x.Y.(*ast.BasicLit); ok && lk == c14kZ && lit.Kind == token.INT {
+				op := map[token.Token]string{token.EQL: "Z.eqb", token.NEQ: "Z.eqb", token.LSS: "Z.ltb", token.LEQ: "Z.leb", token.GTR: "Z.gtb", token.GEQ: "Z.geb"}[x.Op]
+				return pre, neg("(" + op + " " + l + " " + lit.Value + "%Z)"), c14kBool, nil
+			}
 			switch {
+			case lk == c14kStr && rk == c14kStr && (x.Op == token.EQL || x.Op == token.NEQ):
+				return pre, neg("(String.eqb " + l + " " + r + ")"), c14kBool, nil
 			case lk == c14kNat && rk == c14kNat:
 				switch x.Op {
 				case token.EQL, token.NEQ:
@@ -347,12 +505,14 @@ func (t *c14Tr) expr(e ast.Expr) ([]c14Pre, string, c14Kind, error) {
 				if err != nil {
 					return nil, "", c14kNone, err
 				}
-				if k != c14kAnys {
+				if k != c14kAnys && k != c14kXs && k != c14kTCs && k != c14kNats {
 					return bad()
 				}
 				return pre, "(List.length " + c + ")", c14kNat, nil
 			case id.Name == "make" && len(x.Args) == 3 && es(x.Args[0]) == "[]any" && es(x.Args[1]) == "0":
 				return nil, "(@nil cval)", c14kAnys, nil
+			case id.Name == "make" && len(x.Args) == 1 && es(x.Args[0]) == "map[int][]int":
+				return nil, "(@nil (Z * list nat))", c14kZMap, nil
 			case id.Name == "append" && len(x.Args) == 2:
 				pa, a, ak, err := t.expr(x.Args[0])
 				if err != nil {
@@ -362,10 +522,10 @@ func (t *c14Tr) expr(e ast.Expr) ([]c14Pre, string, c14Kind, error) {
 				if err != nil {
 					return nil, "", c14kNone, err
 				}
-				if ak != c14kAnys || bk != c14kElem {
+				if !(ak == c14kAnys && bk == c14kElem) && !(ak == c14kXs && bk == c14kX) && !(ak == c14kTCs && bk == c14kTC) && !(ak == c14kNats && bk == c14kNat) {
 					return bad()
 				}
-				return append(pa, pb...), "(" + a + " ++ [" + b + "])", c14kAnys, nil
+				return append(pa, pb...), "(" + a + " ++ [" + b + "])", ak, nil
 			case id.Name == "GetConcatFunc" && len(x.Args) == 1:
 				pre, c, k, err := t.expr(x.Args[0])
 				if err != nil {
@@ -497,6 +657,8 @@ func (t *c14Tr) expr(e ast.Expr) ([]c14Pre, string, c14Kind, error) {
 				return nil, "", c14kNone, err
 			}
 			switch {
+			case m == "String" && len(args) == 0 && rk == c14kStr:
+				return pre, rc, c14kStr, nil
 			case m == "Len" && len(args) == 0 && rk == c14kSlice:
 				return pre, "(sv_len " + rc + ")", c14kNat, nil
 			case m == "Index" && len(args) == 1 && rk == c14kSlice:
@@ -570,7 +732,16 @@ func (t *c14Tr) assigned(l []ast.Stmt) []string {
 	set := map[string]bool{}
 	local := map[string]bool{}
 	var walk func(n ast.Node)
-	mark := func(e ast.Expr) {
+	var mark func(e ast.Expr)
+	mark = func(e ast.Expr) {
+		switch y := e.(type) {
+		case *ast.IndexExpr:
+			mark(y.X)
+			return
+		case *ast.SelectorExpr:
+			mark(c14FieldBase(y))
+			return
+		}
 		if id, ok := e.(*ast.Ident); ok && id.Name != "_" && id.Name != "err" {
 			if _, known := t.vars[id.Name]; known && !local[id.Name] {
 				set[id.Name] = true
@@ -581,6 +752,11 @@ func (t *c14Tr) assigned(l []ast.Stmt) []string {
 		ast.Inspect(n, func(n ast.Node) bool {
 			switch x := n.(type) {
 			case *ast.AssignStmt:
+				if len(x.Rhs) == 1 {
+					if recv, m, _, ok := c14MethodCall(x.Rhs[0]); ok && (m == "Recv" || m == "WriteString") {
+						mark(recv)
+					}
+				}
 				if x.Tok == token.DEFINE {
 					for _, lh := range x.Lhs {
 						if id, ok := lh.(*ast.Ident); ok {
@@ -599,8 +775,13 @@ func (t *c14Tr) assigned(l []ast.Stmt) []string {
 				mark(x.X)
 			case *ast.ExprStmt:
 				if recv, m, _, ok := c14MethodCall(x.X); ok {
-					if m == "SetMapIndex" {
+					if m == "SetMapIndex" || m == "Reset" {
 						mark(recv)
+					}
+					if (m == "SliceStable" || m == "Slice") && c14IsIdent(recv, "sort") {
+						if c, ok := x.X.(*ast.CallExpr); ok && len(c.Args) > 0 {
+							mark(c.Args[0])
+						}
 					}
 					if m == "Set" {
 						if r2, m2, _, ok := c14MethodCall(recv); ok && m2 == "Index" {
@@ -657,7 +838,7 @@ func c14Terminates(l []ast.Stmt) bool {
 	case *ast.ReturnStmt:
 		return true
 	case *ast.BranchStmt:
-		return x.Tok == token.CONTINUE
+		return x.Tok == token.CONTINUE || x.Tok == token.BREAK
 	case *ast.IfStmt:
 		if x.Else == nil {
 			return false
@@ -680,7 +861,7 @@ func c14HasContinue(l []ast.Stmt) bool {
 			case *ast.ForStmt, *ast.RangeStmt, *ast.FuncLit:
 				return false
 			case *ast.BranchStmt:
-				if x.Tok == token.CONTINUE {
+				if x.Tok == token.CONTINUE || x.Tok == token.BREAK {
 					found = true
 				}
 			}
@@ -693,10 +874,16 @@ func c14HasContinue(l []ast.Stmt) bool {
 // `if err != nil { return <anything>, err }`
 func c14IsErrCheck(s ast.Stmt) bool {
 	i, ok := s.(*ast.IfStmt)
-	if !ok || i.Init != nil || i.Else != nil || es(i.Cond) != "err!=nil" || len(i.Body.List) != 1 {
+	if !ok || i.Init != nil || i.Else != nil || es(i.Cond) != "err!=nil" || len(i.Body.List) == 0 || len(i.Body.List) > 2 {
 		return false
 	}
-	r, ok := i.Body.List[0].(*ast.ReturnStmt)
+	if len(i.Body.List) == 2 {
+		// var t T; return t, err
+		if _, isDecl := i.Body.List[0].(*ast.DeclStmt); !isDecl {
+			return false
+		}
+	}
+	r, ok := i.Body.List[len(i.Body.List)-1].(*ast.ReturnStmt)
 	return ok && len(r.Results) == 2 && c14IsIdent(r.Results[1], "err")
 }
 
@@ -714,14 +901,23 @@ func (t *c14Tr) errCall(s ast.Stmt) (string, token.Token, *ast.CallExpr, bool) {
 	if !ok {
 		return "", 0, nil, false
 	}
+	if _, m, _, isM := c14MethodCall(c); isM && (m == "Recv" || m == "WriteString") {
+		return "", 0, nil, false
+	}
 	return id.Name, a.Tok, c, true
 }
 
 // a call of one of the translated functions (or of the function value f)
 func (t *c14Tr) call(c *ast.CallExpr) ([]c14Pre, string, c14Kind, error) {
-	id, ok := c.Fun.(*ast.Ident)
-	if !ok || len(c.Args) != 1 {
+	if len(c.Args) != 1 {
 		return nil, "", c14kNone, t.errf("call %s is outside the translated fragment", types.ExprString(c))
+	}
+	id, ok := c.Fun.(*ast.Ident)
+	if !ok {
+		if _, isSel := c.Fun.(*ast.SelectorExpr); !isSel {
+			return nil, "", c14kNone, t.errf("call %s is outside the translated fragment", types.ExprString(c))
+		}
+		id = &ast.Ident{Name: es(c.Fun)}
 	}
 	pre, a, ak, err := t.expr(c.Args[0])
 	if err != nil {
@@ -781,11 +977,29 @@ func (t *c14Tr) block(l []ast.Stmt, k string, ind string) (string, error) {
 			code, kd = "(@nil cval)", c14kAnys
 		case "int":
 			code, kd = "0", c14kNat
+		case "[]ToolCall":
+			code, kd = "(@nil toolcall)", c14kTCs
+		case "strings.Builder":
+			code, kd = "EmptyString", c14kStr
 		default:
-			return "", t.errf("var %s %s: type outside the translated fragment", vs.Names[0].Name, es(vs.Type))
+			switch {
+			case t.xType != "" && es(vs.Type) == "[]"+t.xType:
+				code, kd = "(@nil X)", c14kXs
+			case t.xType != "" && es(vs.Type) == t.xType:
+				code, kd = "zero", c14kX
+			default:
+				return "", t.errf("var %s %s: type outside the translated fragment", vs.Names[0].Name, es(vs.Type))
+			}
 		}
 		t.declare(vs.Names[0].Name, kd)
 		return bind(nil, c14Name(vs.Names[0].Name), code, false, 1)
+	case *ast.DeferStmt:
+		// defer sr.Close(): an effect outside the model
+		if recv, m, args, ok := c14MethodCall(x.Call); ok && m == "Close" && len(args) == 0 {
+			if id, ok := recv.(*ast.Ident); ok && t.vars[id.Name] == c14kStream {
+				return rest(1)
+			}
+		}
 	case *ast.IncDecStmt:
 		id, ok := x.X.(*ast.Ident)
 		if !ok || t.vars[id.Name] != c14kNat || x.Tok != token.INC {
@@ -793,6 +1007,23 @@ func (t *c14Tr) block(l []ast.Stmt, k string, ind string) (string, error) {
 		}
 		return bind(nil, c14Name(id.Name), "(S "+c14Name(id.Name)+")", false, 1)
 	case *ast.AssignStmt:
+		// chunk, err := sr.Recv()
+		if len(x.Lhs) == 2 && len(x.Rhs) == 1 && x.Tok == token.DEFINE {
+			if recv, m, args, ok := c14MethodCall(x.Rhs[0]); ok && m == "Recv" && len(args) == 0 {
+				sid, ok1 := recv.(*ast.Ident)
+				cid, ok2 := x.Lhs[0].(*ast.Ident)
+				eid, ok3 := x.Lhs[1].(*ast.Ident)
+				if ok1 && ok2 && ok3 && t.vars[sid.Name] == c14kStream {
+					t.declare(cid.Name, c14kX)
+					t.declare(eid.Name, c14kErr)
+					r, err := rest(1)
+					if err != nil {
+						return "", err
+					}
+					return "let '(" + c14Name(cid.Name) + ", " + c14Name(eid.Name) + ", " + c14Name(sid.Name) + ") := (r_recv zero " + c14Name(sid.Name) + ") in\n" + ind + r, nil
+				}
+			}
+		}
 		// x, err := f(a) ; if err != nil { return _, err }
 		if name, _, c, ok := t.errCall(x); ok {
 			if len(l) < 2 || !c14IsErrCheck(l[1]) {
@@ -808,8 +1039,88 @@ func (t *c14Tr) block(l []ast.Stmt, k string, ind string) (string, error) {
 			t.declare(name, kd)
 			return bind(pre, c14Name(name), code, true, 2)
 		}
+		// _, err := b.WriteString(e) ; if err != nil { return _, err }: strings.Builder.WriteString never fails
+		if len(x.Lhs) == 2 && len(x.Rhs) == 1 && c14IsIdent(x.Lhs[0], "_") && c14IsIdent(x.Lhs[1], "err") {
+			if recv, m, args, ok := c14MethodCall(x.Rhs[0]); ok && m == "WriteString" && len(args) == 1 && len(l) >= 2 && c14IsErrCheck(l[1]) {
+				if rid, ok := recv.(*ast.Ident); ok && t.vars[rid.Name] == c14kStr {
+					pre, c, kd, err := t.expr(args[0])
+					if err != nil {
+						return "", err
+					}
+					if kd != c14kStr {
+						break
+					}
+					return bind(pre, c14Name(rid.Name), "("+c14Name(rid.Name)+" ++ "+c+")%string", false, 2)
+				}
+			}
+		}
+		// a, b, c := e1, e2, e3
+		if x.Tok == token.DEFINE && len(x.Lhs) == len(x.Rhs) && len(x.Lhs) > 1 {
+			var names, codes []string
+			var pres []c14Pre
+			var kinds []c14Kind
+			for i := range x.Lhs {
+				id, ok := x.Lhs[i].(*ast.Ident)
+				if !ok {
+					return "", t.errf("multiple assignment to something that is not a variable")
+				}
+				pre, c, kd, err := t.expr(x.Rhs[i])
+				if err != nil {
+					return "", err
+				}
+				pres = append(pres, pre...)
+				names, codes, kinds = append(names, id.Name), append(codes, c), append(kinds, kd)
+			}
+			for i, n := range names {
+				t.declare(n, kinds[i])
+			}
+			r, err := rest(1)
+			if err != nil {
+				return "", err
+			}
+			out := r
+			for i := len(names) - 1; i >= 0; i-- {
+				out = "let " + c14Name(names[i]) + " := " + codes[i] + " in\n" + ind + out
+			}
+			return c14Wrap(pres, out), nil
+		}
 		if len(x.Lhs) != 1 || len(x.Rhs) != 1 {
 			break
+		}
+		// m[k] = v
+		if ix, ok := x.Lhs[0].(*ast.IndexExpr); ok && x.Tok == token.ASSIGN {
+			mid, ok := ix.X.(*ast.Ident)
+			if !ok || t.vars[mid.Name] != c14kZMap {
+				break
+			}
+			pk, kc, kk, err := t.expr(ix.Index)
+			if err != nil {
+				return "", err
+			}
+			pv, vc, vk, err := t.expr(x.Rhs[0])
+			if err != nil {
+				return "", err
+			}
+			if kk != c14kZ || vk != c14kNats {
+				break
+			}
+			return bind(append(pk, pv...), c14Name(mid.Name), "(zm_put "+kc+" "+vc+" "+c14Name(mid.Name)+")", false, 1)
+		}
+		// x.F = e  (fields of a tool call)
+		if sel, ok := x.Lhs[0].(*ast.SelectorExpr); ok && x.Tok == token.ASSIGN {
+			setter, ok := map[string]string{"ID": "tc_set_id", "Type": "tc_set_type", "Function.Name": "tc_set_name", "Function.Arguments": "tc_set_args"}[c14FieldPath(sel)]
+			bid, ok2 := c14FieldBase(sel).(*ast.Ident)
+			if !ok || !ok2 || t.vars[bid.Name] != c14kTC {
+				break
+			}
+			pre, c, kd, err := t.expr(x.Rhs[0])
+			if err != nil {
+				return "", err
+			}
+			if kd != c14kStr {
+				break
+			}
+			return bind(pre, c14Name(bid.Name), "("+setter+" "+c14Name(bid.Name)+" "+c+")", false, 1)
 		}
 		id, ok := x.Lhs[0].(*ast.Ident)
 		if !ok {
@@ -858,6 +1169,20 @@ func (t *c14Tr) block(l []ast.Stmt, k string, ind string) (string, error) {
 		recv, m, args, ok := c14MethodCall(x.X)
 		if !ok {
 			break
+		}
+		if m == "Reset" && len(args) == 0 {
+			if rid, ok := recv.(*ast.Ident); ok && t.vars[rid.Name] == c14kStr {
+				return bind(nil, c14Name(rid.Name), "EmptyString", false, 1)
+			}
+		}
+		if c14IsIdent(recv, "sort") && (m == "SliceStable" || m == "Slice") && len(args) == 2 {
+			// the comparator is translated separately (gen_tc_less, on the two Index fields)
+			sid, ok := args[0].(*ast.Ident)
+			if !ok || t.vars[sid.Name] != c14kTCs {
+				break
+			}
+			fnName := map[string]string{"SliceStable": "r_sort_stable", "Slice": "r_sort_unstable"}[m]
+			return bind(nil, c14Name(sid.Name), "("+fnName+" (fun a b => gen_tc_less (tc_idx a) (tc_idx b)) "+c14Name(sid.Name)+")", true, 1)
 		}
 		if m == "SetMapIndex" && len(args) == 2 {
 			rid, ok := recv.(*ast.Ident)
@@ -933,6 +1258,46 @@ func (t *c14Tr) block(l []ast.Stmt, k string, ind string) (string, error) {
 		if len(x.Results) != 2 {
 			break
 		}
+		if t.resKind == c14kX {
+			// the value
+			var pre []c14Pre
+			val := ""
+			if c14IsIdent(x.Results[0], "nil") {
+				val = "zero"
+			} else {
+				p0, c, kd, err := t.expr(x.Results[0])
+				if err != nil {
+					return "", err
+				}
+				if kd != c14kX {
+					return "", t.errf("return of a value of kind %s", c14KindName[kd])
+				}
+				pre, val = p0, c
+			}
+			// the error: nil | the Recv error (possibly wrapped) | another error
+			switch e := x.Results[1].(type) {
+			case *ast.Ident:
+				if e.Name == "nil" {
+					return c14Wrap(pre, "Return (Ok "+val+")"), nil
+				}
+				if t.vars[e.Name] == c14kErr {
+					return c14Wrap(pre, "Return (r_ret "+val+" "+c14Name(e.Name)+")"), nil
+				}
+				if _, isLocal := t.vars[e.Name]; !isLocal {
+					return c14Wrap(pre, "Return (Err "+t.errCode+")"), nil // a package-level error value
+				}
+			case *ast.CallExpr:
+				if len(e.Args) == 1 {
+					if id, ok := e.Args[0].(*ast.Ident); ok && t.vars[id.Name] == c14kErr {
+						return c14Wrap(pre, "Return (r_ret "+val+" "+c14Name(id.Name)+")"), nil // wrapped Recv error
+					}
+					if _, isLit := e.Args[0].(*ast.BasicLit); isLit && (es(e.Fun) == "errors.New" || es(e.Fun) == "fmt.Errorf") {
+						return c14Wrap(pre, "Return (Err "+t.errCode+")"), nil
+					}
+				}
+			}
+			break
+		}
 		if c14IsIdent(x.Results[1], "nil") {
 			pre, c, kd, err := t.expr(x.Results[0])
 			if err != nil {
@@ -944,12 +1309,20 @@ func (t *c14Tr) block(l []ast.Stmt, k string, ind string) (string, error) {
 			}
 			return c14Wrap(pre, "Return (Ok "+c+")"), nil
 		}
-		if c, ok := x.Results[1].(*ast.CallExpr); ok && es(c.Fun) == "fmt.Errorf" && es(x.Results[0]) == "reflect.Value{}" {
+		if c, ok := x.Results[1].(*ast.CallExpr); ok && es(c.Fun) == "fmt.Errorf" && (es(x.Results[0]) == "reflect.Value{}" || es(x.Results[0]) == "nil") {
 			return "Return (Err " + t.errCode + ")", nil
 		}
 	case *ast.BranchStmt:
-		if x.Tok == token.CONTINUE && x.Label == nil && len(t.loopV) > 0 {
-			return "Next " + c14Tuple(t.loopV[len(t.loopV)-1]), nil
+		if x.Label == nil && len(t.loopV) > 0 {
+			v, lk := c14Tuple(t.loopV[len(t.loopV)-1]), t.loopK[len(t.loopK)-1]
+			switch {
+			case x.Tok == token.CONTINUE && lk == "fold":
+				return "Next " + v, nil
+			case x.Tok == token.CONTINUE && lk == "loop":
+				return "Next (inl " + v + ")", nil
+			case x.Tok == token.BREAK && lk == "loop":
+				return "Next (inr " + v + ")", nil
+			}
 		}
 	case *ast.IfStmt:
 		if x.Init != nil {
@@ -1058,6 +1431,34 @@ func (t *c14Tr) block(l []ast.Stmt, k string, ind string) (string, error) {
 		}
 		return c14Wrap(pc, "cbind (if "+cc+" then ("+th+")\n"+ind+"  else ("+el+")) (fun "+c14Pattern(vs)+" =>\n"+ind+r+")"), nil
 	case *ast.ForStmt:
+		if x.Init == nil && x.Cond == nil && x.Post == nil {
+			// for { ... x, err := S.Recv() ... break ... }: c_loop; the fuel is what the stream can still deliver, plus the EOF
+			vs := t.assigned(x.Body.List)
+			stream := ""
+			for _, v := range vs {
+				if t.vars[v] == c14kStream {
+					stream = v
+				}
+			}
+			if stream == "" {
+				return "", t.errf("for { }: the loop does not read a stream")
+			}
+			saved := t.snapshot()
+			t.loopV = append(t.loopV, vs)
+			t.loopK = append(t.loopK, "loop")
+			body, err := t.block(x.Body.List, "Next (inl "+c14Tuple(vs)+")", ind+"    ")
+			if err != nil {
+				return "", err
+			}
+			t.loopV = t.loopV[:len(t.loopV)-1]
+			t.loopK = t.loopK[:len(t.loopK)-1]
+			t.restore(saved)
+			r, err := rest(1)
+			if err != nil {
+				return "", err
+			}
+			return "cbind (c_loop (S (List.length " + c14Name(stream) + ")) (fun " + c14Pattern(vs) + " =>\n" + ind + "    " + body + ")\n" + ind + "  " + c14Tuple(vs) + ") (fun " + c14Pattern(vs) + " =>\n" + ind + r + ")", nil
+		}
 		// for i := k; i < N; i++
 		init, ok := x.Init.(*ast.AssignStmt)
 		if !ok || init.Tok != token.DEFINE || len(init.Lhs) != 1 || len(init.Rhs) != 1 {
@@ -1107,6 +1508,7 @@ func (t *c14Tr) block(l []ast.Stmt, k string, ind string) (string, error) {
 		elem := c14Name(over) + "_" + c14Name(iv.Name)
 		t.loops = append(t.loops, c14Loop{iv.Name, over, elem})
 		t.loopV = append(t.loopV, vs)
+		t.loopK = append(t.loopK, "fold")
 		t.declare(iv.Name, c14kNat)
 		body, err := t.block(x.Body.List, "Next "+c14Tuple(vs), ind+"    ")
 		if err != nil {
@@ -1114,6 +1516,7 @@ func (t *c14Tr) block(l []ast.Stmt, k string, ind string) (string, error) {
 		}
 		t.loops = t.loops[:len(t.loops)-1]
 		t.loopV = t.loopV[:len(t.loopV)-1]
+		t.loopK = t.loopK[:len(t.loopK)-1]
 		t.restore(saved)
 		r, err := rest(1)
 		if err != nil {
@@ -1121,6 +1524,66 @@ func (t *c14Tr) block(l []ast.Stmt, k string, ind string) (string, error) {
 		}
 		return "cbind (cfold (fun " + c14Pattern(vs) + " '(" + c14Name(iv.Name) + ", " + elem + ") =>\n" + ind + "    " + body + ")\n" + ind + "  (skipn " + start.Value + " (enumerate " + list + ")) " + c14Tuple(vs) + ") (fun " + c14Pattern(vs) + " =>\n" + ind + r + ")", nil
 	case *ast.RangeStmt:
+		if x.Tok == token.DEFINE && x.Value == nil {
+			// for i := range X  (X a []ToolCall): the elements with their index
+			iv, ok1 := x.Key.(*ast.Ident)
+			over, ok2 := x.X.(*ast.Ident)
+			if !ok1 || !ok2 || t.vars[over.Name] != c14kTCs {
+				break
+			}
+			vs := t.assigned(x.Body.List)
+			for _, v := range vs {
+				if v == over.Name {
+					return "", t.errf("for %s: the loop assigns the slice %s it runs over", iv.Name, over.Name)
+				}
+			}
+			saved := t.snapshot()
+			elem := c14Name(over.Name) + "_" + c14Name(iv.Name)
+			t.loops = append(t.loops, c14Loop{iv.Name, over.Name, elem})
+			t.loopV = append(t.loopV, vs)
+			t.loopK = append(t.loopK, "fold")
+			t.declare(iv.Name, c14kNat)
+			body, err := t.block(x.Body.List, "Next "+c14Tuple(vs), ind+"    ")
+			if err != nil {
+				return "", err
+			}
+			t.loops = t.loops[:len(t.loops)-1]
+			t.loopV = t.loopV[:len(t.loopV)-1]
+			t.loopK = t.loopK[:len(t.loopK)-1]
+			t.restore(saved)
+			r, err := rest(1)
+			if err != nil {
+				return "", err
+			}
+			return "cbind (cfold (fun " + c14Pattern(vs) + " '(" + c14Name(iv.Name) + ", " + elem + ") =>\n" + ind + "    " + body + ")\n" + ind + "  (enumerate " + c14Name(over.Name) + ") " + c14Tuple(vs) + ") (fun " + c14Pattern(vs) + " =>\n" + ind + r + ")", nil
+		}
+		if x.Tok == token.DEFINE && !c14IsIdent(x.Key, "_") && x.Value != nil {
+			// for k, v := range m  (m a map[int][]int): Go's order is arbitrary: the parameter [ord]
+			kv, ok1 := x.Key.(*ast.Ident)
+			vv, ok2 := x.Value.(*ast.Ident)
+			over, ok3 := x.X.(*ast.Ident)
+			if !ok1 || !ok2 || !ok3 || t.vars[over.Name] != c14kZMap {
+				break
+			}
+			vs := t.assigned(x.Body.List)
+			saved := t.snapshot()
+			t.loopV = append(t.loopV, vs)
+			t.loopK = append(t.loopK, "fold")
+			t.declare(kv.Name, c14kZ)
+			t.declare(vv.Name, c14kNats)
+			body, err := t.block(x.Body.List, "Next "+c14Tuple(vs), ind+"    ")
+			if err != nil {
+				return "", err
+			}
+			t.loopV = t.loopV[:len(t.loopV)-1]
+			t.loopK = t.loopK[:len(t.loopK)-1]
+			t.restore(saved)
+			r, err := rest(1)
+			if err != nil {
+				return "", err
+			}
+			return "cbind (cfold (fun " + c14Pattern(vs) + " '(" + c14Name(kv.Name) + ", " + c14Name(vv.Name) + ") =>\n" + ind + "    " + body + ")\n" + ind + "  (ord " + c14Name(over.Name) + ") " + c14Tuple(vs) + ") (fun " + c14Pattern(vs) + " =>\n" + ind + r + ")", nil
+		}
 		if x.Tok != token.DEFINE || !c14IsIdent(x.Key, "_") {
 			break
 		}
@@ -1138,18 +1601,22 @@ func (t *c14Tr) block(l []ast.Stmt, k string, ind string) (string, error) {
 			ek = c14kElem
 		case c14kKeys:
 			ek = c14kKey
+		case c14kNats:
+			ek = c14kNat
 		default:
 			return "", t.errf("range over a value of kind %s", c14KindName[lk])
 		}
 		vs := t.assigned(x.Body.List)
 		saved := t.snapshot()
 		t.loopV = append(t.loopV, vs)
+		t.loopK = append(t.loopK, "fold")
 		t.declare(ev.Name, ek)
 		body, err := t.block(x.Body.List, "Next "+c14Tuple(vs), ind+"    ")
 		if err != nil {
 			return "", err
 		}
 		t.loopV = t.loopV[:len(t.loopV)-1]
+		t.loopK = t.loopK[:len(t.loopK)-1]
 		t.restore(saved)
 		r, err := rest(1)
 		if err != nil {
@@ -1248,6 +1715,37 @@ func c14Function(f *ast.File, sp c14Spec, funcs map[string]c14Fn) (string, error
 	rty := map[c14Kind]string{c14kSlice: "sval", c14kOpt: "option cval"}[sp.resKind]
 	fmt.Fprintf(&b, "(%s : %s) : res (%s) :=\n  crun (S := unit) (\n    %s).\n", c14Name(p), pty, rty, body)
 	return b.String(), nil
+}
+
+// ---------------------------------------------------------------- the stream entry points
+
+// concatStreamReader[T] / ConcatMessageStream: func(sr *StreamReader[T]) (T, error) — the drain loop
+// (for { chunk, err := sr.Recv() ... }), the empty / single-chunk cases and the call of the
+// concatenation function [callee] (a Section variable concat_items of the generated code).
+func c14StreamEntry(f *ast.File, name, xType, errCode, callee string) (string, error) {
+	fn := topFunc(f, name)
+	if fn == nil || fn.Body == nil {
+		return "", fmt.Errorf("func %s not found", name)
+	}
+	if fn.Type.Params == nil || len(fn.Type.Params.List) != 1 || len(fn.Type.Params.List[0].Names) != 1 {
+		return "", fmt.Errorf("%s: not a function of one parameter", name)
+	}
+	pt := es(fn.Type.Params.List[0].Type)
+	if pt != "*schema.StreamReader["+xType+"]" && pt != "*StreamReader["+xType+"]" {
+		return "", fmt.Errorf("%s: parameter of type %s", name, pt)
+	}
+	if fn.Type.Results == nil || len(fn.Type.Results.List) != 2 || es(fn.Type.Results.List[0].Type) != xType || es(fn.Type.Results.List[1].Type) != "error" {
+		return "", fmt.Errorf("%s: result is not (%s, error)", name, xType)
+	}
+	p := fn.Type.Params.List[0].Names[0].Name
+	t := &c14Tr{fname: name, vars: map[string]c14Kind{}, lenOf: map[string]string{}, resKind: c14kX, errCode: errCode, xType: xType,
+		funcs: map[string]c14Fn{callee: {"concat_items", c14kXs, c14kX}}}
+	t.declare(p, c14kStream)
+	body, err := t.block(fn.Body.List, "Return Panic", "    ")
+	if err != nil {
+		return "", err
+	}
+	return fmt.Sprintf("Definition gen_%s (%s : list (sitem X)) : res X :=\n  crun (S := unit) (\n    %s).\n", name, c14Name(p), body), nil
 }
 
 // ---------------------------------------------------------------- concatToolCalls: sort + comparator
@@ -1416,6 +1914,122 @@ func c14ToolCallSort(g *ast.File) (string, error) {
 	return "Definition gen_tc_less (a b : option Z) : option bool :=\n  " + body + ".\n\nDefinition gen_tc_sort_stable : bool := " + stable + ".\n", nil
 }
 
+// ---------------------------------------------------------------- concatToolCalls, statement by statement
+
+func c14ToolCalls(g *ast.File) (string, error) {
+	name := "concatToolCalls"
+	fn := topFunc(g, name)
+	if fn == nil || fn.Body == nil {
+		return "", fmt.Errorf("func %s not found", name)
+	}
+	if fn.Type.Params == nil || len(fn.Type.Params.List) != 1 || len(fn.Type.Params.List[0].Names) != 1 || es(fn.Type.Params.List[0].Type) != "[]ToolCall" {
+		return "", fmt.Errorf("%s: not a function of one []ToolCall parameter", name)
+	}
+	if fn.Type.Results == nil || len(fn.Type.Results.List) != 2 || es(fn.Type.Results.List[0].Type) != "[]ToolCall" || es(fn.Type.Results.List[1].Type) != "error" {
+		return "", fmt.Errorf("%s: result is not ([]ToolCall, error)", name)
+	}
+	p := fn.Type.Params.List[0].Names[0].Name
+	t := &c14Tr{fname: name, vars: map[string]c14Kind{}, lenOf: map[string]string{}, resKind: c14kTCs, errCode: "E_CONFLICT", funcs: map[string]c14Fn{}}
+	t.declare(p, c14kTCs)
+	body, err := t.block(fn.Body.List, "Return Panic", "    ")
+	if err != nil {
+		return "", err
+	}
+	return fmt.Sprintf("Definition gen_%s (%s : list toolcall) : res (list toolcall) :=\n  crun (S := unit) (\n    %s).\n", name, c14Name(p), body), nil
+}
+
+// ---------------------------------------------------------------- ConcatItems: the dispatch, as a table
+
+// ConcatItems[T] is generic in the static chunk type, which the value domain of the model does not
+// carry; it is tied as a table of its top-level statements: (what is tested / bound, what happens),
+// in source order.  An if / else-if chain gives one row per branch.
+func c14ItemsShape(f *ast.File) (string, error) {
+	fn := topFunc(f, "ConcatItems")
+	if fn == nil || fn.Body == nil {
+		return "", fmt.Errorf("func ConcatItems not found")
+	}
+	var rows [][2]string
+	var summarise func(l []ast.Stmt) (string, error)
+	summarise = func(l []ast.Stmt) (string, error) {
+		var parts []string
+		for _, s := range l {
+			switch x := s.(type) {
+			case *ast.AssignStmt:
+				var lh, rh []string
+				for _, e := range x.Lhs {
+					lh = append(lh, es(e))
+				}
+				for _, e := range x.Rhs {
+					rh = append(rh, es(e))
+				}
+				parts = append(parts, strings.Join(lh, ",")+x.Tok.String()+strings.Join(rh, ","))
+			case *ast.DeclStmt:
+				gd, ok := x.Decl.(*ast.GenDecl)
+				if !ok || gd.Tok != token.VAR || len(gd.Specs) != 1 {
+					return "", fmt.Errorf("ConcatItems: declaration outside the translated fragment")
+				}
+				vs := gd.Specs[0].(*ast.ValueSpec)
+				if len(vs.Values) != 0 || vs.Type == nil || len(vs.Names) != 1 {
+					return "", fmt.Errorf("ConcatItems: declaration outside the translated fragment")
+				}
+				parts = append(parts, "var "+vs.Names[0].Name+" "+es(vs.Type))
+			case *ast.ReturnStmt:
+				var rs []string
+				for _, e := range x.Results {
+					rs = append(rs, es(e))
+				}
+				parts = append(parts, "return "+strings.Join(rs, ","))
+			default:
+				return "", fmt.Errorf("ConcatItems: statement %T outside the translated fragment", s)
+			}
+		}
+		return strings.Join(parts, "; "), nil
+	}
+	for _, s := range fn.Body.List {
+		if is, ok := s.(*ast.IfStmt); ok {
+			for cur := is; cur != nil; {
+				if cur.Init != nil {
+					return "", fmt.Errorf("ConcatItems: if with an init statement")
+				}
+				b, err := summarise(cur.Body.List)
+				if err != nil {
+					return "", err
+				}
+				rows = append(rows, [2]string{"if " + es(cur.Cond), b})
+				switch e := cur.Else.(type) {
+				case nil:
+					cur = nil
+				case *ast.IfStmt:
+					cur = e
+				case *ast.BlockStmt:
+					b, err := summarise(e.List)
+					if err != nil {
+						return "", err
+					}
+					rows = append(rows, [2]string{"else", b})
+					cur = nil
+				}
+			}
+			continue
+		}
+		b, err := summarise([]ast.Stmt{s})
+		if err != nil {
+			return "", err
+		}
+		rows = append(rows, [2]string{"", b})
+	}
+	var b strings.Builder
+	b.WriteString("Definition gen_concat_items_shape : list (string * string) :=\n  [ ")
+	for i, r := range rows {
+		if i > 0 {
+			b.WriteString(";\n    ")
+		}
+		fmt.Fprintf(&b, "(%s, %s)", coqStr(r[0]), coqStr(r[1]))
+	}
+	b.WriteString(" ].\n")
+	return b.String(), nil
+}
+
 func c14ExtractConcatCode(repo string) (string, string, error) {
 	fset := token.NewFileSet()
 	f, err := parseGo(fset, repo, "internal", "concat.go")
@@ -1455,15 +2069,45 @@ func c14ExtractConcatCode(repo string) (string, string, error) {
 	if err != nil {
 		return "", "", err
 	}
+	shape, err := c14ItemsShape(f)
+	if err != nil {
+		return "", "", err
+	}
+	h, err := parseGo(fset, repo, "compose", "stream_concat.go")
+	if err != nil {
+		return "", "", err
+	}
+	se1, err := c14StreamEntry(h, "concatStreamReader", "T", "E_EMPTY", "internal.ConcatItems")
+	if err != nil {
+		return "", "", err
+	}
+	se2, err := c14StreamEntry(g, "ConcatMessageStream", "*Message", "E_EMPTY", "ConcatMessages")
+	if err != nil {
+		return "", "", err
+	}
+	tcs, err := c14ToolCalls(g)
+	if err != nil {
+		return "", "", err
+	}
 	var b strings.Builder
 	b.WriteString("(* Gen/ConcatCode.v — GENERATED by tools/go2v (extractor \"concatcode\") from internal/concat.go\n")
 	b.WriteString("   (toSliceValue, concatSliceValue, concatMaps, concatInterfaces, translated statement by statement) and\n")
 	b.WriteString("   schema/message.go (the sort call of concatToolCalls and its comparator). Do not edit. *)\n")
-	b.WriteString("From Eino Require Import Base.Util Model.ConcatTable Model.Concat Model.ConcatGenLib.\n\n")
+	b.WriteString("From Eino Require Import Base.Util Model.ConcatTable Model.Concat Model.ConcatMsg Model.ConcatStream Model.ConcatGenLib.\n\n")
 	b.WriteString("Definition tie_available : bool := true.\n\nSection Gen.\nContext {U : UserFn}.\n\n")
 	b.WriteString(strings.Join(defs, "\n"))
 	b.WriteString("\nEnd Gen.\n\n")
 	b.WriteString(tc)
+	b.WriteString("\n")
+	b.WriteString(shape)
+	b.WriteString("\nSection Stream.\nVariable X : Type.\nVariable zero : X.\nVariable concat_items : list X -> res X.\n\n")
+	b.WriteString(se1)
+	b.WriteString("\n")
+	b.WriteString(se2)
+	b.WriteString("\nEnd Stream.\n")
+	b.WriteString("\nSection ToolCalls.\n(* the order in which Go visits the index map *)\nVariable ord : list (Z * list nat) -> list (Z * list nat).\n\n")
+	b.WriteString(tcs)
+	b.WriteString("\nEnd ToolCalls.\n")
 	_ = sort.Strings
 	return "ConcatCode.v", b.String(), nil
 }
